@@ -88,6 +88,11 @@ def cases(tier, seed, rnd):
                 for form in forms:
                     specs.append(dict(name='chain:%s:%s:%d:%s' % (front, base, ci, form), atom='chain', base=base,
                                       chain=chain, form=form, front=front))
+            if base in ('abs', 'norm1', 'norminf', 'norm2', 'square', 'sumsqr', 'maxof', 'minof'):
+                # multiplication by ZERO followed by an affine addition: what is left is the affine part
+                for zc in (['mul', 0.0, 'sub_aff'], ['rmul', 0.0, 'add_c', 1.0, 'sub_aff']):
+                    specs.append(dict(name='chain:%s:%s:zero%d:cons' % (front, base, len(zc)), atom='chain', base=base,
+                                      chain=zc, form='cons', front=front))
             for i in range(0, len(specs), 2):
                 cs.append(dict(k='M', front=front, base=base, part=i // 2, specs=specs[i:i + 2]))
     # ... and for worst-case expectations of piecewise expressions in the dro front end (ExpPiecewiseConvex), through the
